@@ -89,7 +89,7 @@ CheckMetrics(e) ==
 CheckEvent(e) == IF e.fam = "metrics" THEN CheckMetrics(e) ELSE CheckIter(e)
 
 Init == l = 1
-Next == l <= Len(Rec) /\ CheckEvent(Rec[l]) /\ l' = l + 1
+Next == l <= Len(Rec) /\ (CheckEvent(Rec[l]) = TRUE) /\ l' = l + 1     \* "= TRUE": evaluated as an expression (short-circuit), not split as an action
 Spec == Init /\ [][Next]_vars
 Done == Require(TLCGet("stats").diameter = Len(Rec) + 1, PrintT("INCOMPLETE")) /\ PrintT("DONE " \o ToString(Len(Rec)))
 =============================================================================
